@@ -508,6 +508,7 @@ def check(run):
     check_interrupted_stop(run)
     check_restored_block_with_async_init(run)
     check_restored_source_sends_event(run)
+    check_timer_transition_saved(run)
 
 
 def check_interrupted_stop(run):
@@ -674,6 +675,59 @@ def check_restored_source_sends_event(run):
                       clause='restored_source_sends_event', concrete=True)
 
 
+def check_timer_transition_saved(run, only=None):
+    """'after every event the storage holds exactly the current state' - the events an FSM sends to
+    itself when its timer goes off included: a crash right after the expiry must find the new state in
+    the storage, not the old timed state with a time stamp that has passed."""
+    for kind in ('timer', 'inputexp'):
+        if only is not None and kind != only:
+            continue
+        obs = dict(before=None, after=None, state=None, harness=None)
+        store = {}
+
+        async def main(loop, kind=kind, obs=obs, store=store):
+            edzed.reset_circuit()
+            circuit = edzed.get_circuit()
+            if kind == 'timer':
+                blk = edzed.Timer('blk', t_on=0.05, persistent=True)
+            else:
+                blk = edzed.InputExp('blk', duration=0.05, expired='EXP', initdef='INIT', persistent=True)
+            circuit.set_persistent_data(store)
+            task = asyncio.create_task(circuit.run_forever())
+            await circuit.wait_init()
+            if kind == 'timer':
+                blk.event('start')
+            else:
+                blk.event('put', value='V')
+            obs['before'] = copy.deepcopy(store.get(blk.key))
+            await asyncio.sleep(0.2)                  # the timer goes off meanwhile
+            obs['state'] = blk.state
+            obs['after'] = copy.deepcopy(store.get(blk.key))      # what a crash at this moment leaves behind
+            obs['current'] = copy.deepcopy(blk.get_state())
+            await circuit.shutdown()
+            await asyncio.wait([task], timeout=2.0)
+        try:
+            vloop.run_virtual(main, wall_limit_s=10.0)
+        except BaseException as err:                          # noqa
+            obs['harness'] = repr(err)[:200]
+        finally:
+            edzed.reset_circuit()
+        run.add_case(dict(timer_transition_saved=kind), True)
+        run.count('timer_transition_saved')
+        want_state = 'off' if kind == 'timer' else 'expired'
+        ok = (obs['harness'] is None and obs['state'] == want_state and obs['after'] is not None
+              and list(obs['after'])[0] == want_state and list(obs['after']) == list(obs['current'])
+              and obs['before'] is not None and list(obs['before'])[0] != want_state)
+        run.add_obligation(ok)
+        if not ok:
+            run.violation('monitor', dict(case=dict(timer_transition_saved=kind), observed=obs),
+                          f"persistent {kind} (sync_state on) whose 50 ms timer went off: state {obs['state']!r}, the "
+                          f"storage holds {obs['after']} (before the expiry: {obs['before']}), get_state() = "
+                          f"{obs.get('current')} - expected the storage to hold the current state "
+                          f"('{want_state}'); harness: {obs['harness']}",
+                          clause='timer_transition_not_saved:' + kind, concrete=True)
+
+
 def check_refused_write(run, only=None):
     """A storage that refuses ONE write (a value it cannot serialise, a transient I/O error): the
     storage can then not hold the current state, but it must not go on holding an OUTDATED one - a
@@ -740,6 +794,9 @@ def replay(run, path):
         return common.directed_replay(run, path, lambda: check_interrupted_stop(run))
     if isinstance(case, dict) and 'restored_block_with_async_init' in case:
         return common.directed_replay(run, path, lambda: check_restored_block_with_async_init(run))
+    if isinstance(case, dict) and 'timer_transition_saved' in case:
+        return common.directed_replay(run, path,
+                                      lambda: check_timer_transition_saved(run, case['timer_transition_saved']))
     if isinstance(case, dict) and 'restored_source_sends_event' in case:
         return common.directed_replay(run, path, lambda: check_restored_source_sends_event(run))
     if isinstance(case, dict) and 'refused_write' in case:
